@@ -12,6 +12,7 @@ write(update_keys, as_generator) yielding (row, updated, updated_id)):
   normalize_for_engine        : per row, in place, exactly the array / object columns go through the dialect's fixers (in order)
   normalize_schema_for_engine : a deep copy; on sqlite array / object columns are declared string; the input schema is untouched
 """
+from contracts.common import fn_named
 from contracts.common import same_stream, Item, mk_resource, expect_no_raise_or_same, _b
 from contracts.streams import calls, effect_names
 
@@ -125,7 +126,7 @@ def sym_process_resource(vc):
                         check(it, 'no-update-keys-outside-update-mode' + tag, uk is None)
                     rows = wr[0].objs[1]
                     check(it, 'rows-go-through-the-engine-normaliser' + tag, isinstance(rows, GenObj) and
-                          rows.fn.name == 'normalize_for_engine' and rows.args[-2] is r and rows.args[-1] is schema and
+                          fn_named(rows, 'normalize_for_engine') and rows.args[-2] is r and rows.args[-1] is schema and
                           rows.args[-3] == 'sqlite')
                     check(it, 'writer-options-forwarded' + tag, kw.get('keyed') is True and kw.get('as_generator') is True and
                           kw.get('buffer_size') == 77 and kw.get('use_bloom_filter') is False)
